@@ -458,7 +458,7 @@ structure Inv (w : Wiring) (s : Net) : Prop where
   stage : ∀ (j : Nat) (nd : Node) (inp out : MB) (sub : Sub) (c : Nat), s.nodes[j + 1]? = some nd → s.mbs[j]? = some inp → s.mbs[j + 1]? = some out →
     inp.subs[0]? = some sub → w.caps[j]? = some c → sub.next = out.nSent + nd.held ∧ nd.held ≤ c
   main : ∀ (j : Nat) (nd : Node) (inp : MB) (sub : Sub) (c : Nat), j + 1 = w.caps.length → s.nodes[j + 1]? = some nd → s.mbs[j]? = some inp →
-    inp.subs[0]? = some sub → w.caps[j]? = some c → sub.next = s.pulled + nd.batch.length ∧ nd.batch.length ≤ c - 1
+    inp.subs[0]? = some sub → w.caps[j]? = some c → sub.next = s.pulled + nd.held ∧ nd.batch.length ≤ c - 1
 
 theorem MBOk.sub0 {mb : MB} {c lazy} (h : MBOk mb c lazy) : ∃ sub, mb.subs[0]? = some sub := by
   obtain ⟨sub, r, hs, _⟩ := h.drive; exact ⟨sub, by simp [hs]⟩
@@ -540,7 +540,7 @@ theorem Inv.inUpdate {w : Wiring} {s : Net} (h : Inv w s) {j : Nat} {nd nd' : No
     (hstage : j + 1 < w.caps.length → p' = s.pulled ∧ ∀ sub sub', mb.subs[0]? = some sub → mb'.subs[0]? = some sub' →
       sub'.next + nd.held = sub.next + nd'.held ∧ nd'.held ≤ c)
     (hmain : j + 1 = w.caps.length → ∀ sub sub', mb.subs[0]? = some sub → mb'.subs[0]? = some sub' →
-      sub'.next + s.pulled + nd.batch.length = sub.next + p' + nd'.batch.length ∧ nd'.batch.length ≤ c - 1) :
+      sub'.next + s.pulled + nd.held = sub.next + p' + nd'.held ∧ nd'.batch.length ≤ c - 1) :
     Inv w { (s.setMb j mb').setNode (j + 1) nd' with pulled := p' } := by
   have hjm : j < s.mbs.length := (List.getElem?_eq_some_iff.mp hm).1
   have hjn : j + 1 < s.nodes.length := (List.getElem?_eq_some_iff.mp hn).1
@@ -784,9 +784,9 @@ theorem Inv.stepGate {w : Wiring} {s s' : Net} (h : Inv w s) {j : Nat} {nd : Nod
       · exact advance_not_dead _ e
 
 theorem Inv.stepSend {w : Wiring} {s s' : Net} (h : Inv w s) {j : Nat} {nd : Node} {out : MB} {m : Msg}
-    (hn : s.nodes[j]? = some nd) (hpc : nd.pc = .send m ∨ (nd.pc = .close ∧ m = .stop)) (hm : s.mbs[j]? = some out)
+    (hn : s.nodes[j]? = some nd) (hpc : (∃ m0, nd.pc = .send m0) ∨ nd.pc = .close) (hm : s.mbs[j]? = some out)
     {r : SendOut × MB} (hg : out.sendStep none m = some r)
-    (hs : (∃ n, r.1 = .sent n ∧ ((nd.pc = .send m ∧ s' = (s.setMb j r.2).setNode j (afterPush s.lazy j nd)) ∨
+    (hs : (∃ n, r.1 = .sent n ∧ (((∃ m0, nd.pc = .send m0) ∧ s' = (s.setMb j r.2).setNode j (afterPush s.lazy j nd)) ∨
                                (nd.pc = .close ∧ s' = (s.setMb j { r.2 with closed := true }).setNode j { nd with pc := .done }))) ∨
           (∃ n, r.1 = .waiting n ∧ s' = s.setMb j r.2) ∨ r.1 = .dropped ∨ ∃ e, r.1 = .raised e) : Inv w s' := by
   obtain ⟨c, hc, hok⟩ := h.capAt hm
@@ -795,9 +795,9 @@ theorem Inv.stepSend {w : Wiring} {s s' : Net} (h : Inv w s) {j : Nat} {nd : Nod
     | false => rfl
     | true =>
       have := h.closed j out nd hm hn hcl
-      rcases hpc with hpc | ⟨hpc, _⟩ <;> rw [hpc] at this <;> cases this
+      rcases hpc with ⟨m0, hpc⟩ | hpc <;> rw [hpc] at this <;> cases this
   have hheld : nd.held = 1 + nd.batch.length := by
-    rcases hpc with hpc | ⟨hpc, _⟩ <;> simp [Node.held, hpc, pend]
+    rcases hpc with ⟨m0, hpc⟩ | hpc <;> simp [Node.held, hpc, pend]
   obtain ⟨o, mb⟩ := r
   rcases hok.sendStep hncl hg with ⟨ho, hmb, hroom⟩ | ⟨ho, hmb⟩
   · -- pushed
@@ -871,20 +871,31 @@ theorem Inv.stepPull {w : Wiring} {s s' : Net} (h : Inv w s) {i : Nat} {nd : Nod
   cases msgs with
   | nil => simp [Net.pull] at hs
   | cons m r =>
-    have key : ∀ pc' : Pc, (∀ e, pc' ≠ .dead e) →
-        Inv w { ((s.setMb i mb').setNode (i + 1) { pc := pc', batch := r }) with pulled := s.pulled + 1 } := by
-      intro pc' hpc'
+    have key : ∀ (pc' : Pc) (p' : Nat), (∀ e, pc' ≠ .dead e) → pend pc' + p' = s.pulled + 1 →
+        Inv w { ((s.setMb i mb').setNode (i + 1) { pc := pc', batch := r }) with pulled := p' } := by
+      intro pc' p' hpc' hp'
       apply h.inUpdate hn hm hc hok hns hcl (by rw [hpc]; simp) hpc'
       · intro hlt; omega
       · intro _ sub sub' h1 h2
         have := hnext sub sub' h1 h2
         rw [hsub0] at h1; cases h1
-        simp only [List.length_cons] at this hlen ⊢
-        omega
+        have hh : nd.held = nd.batch.length := by simp [Node.held, hpc, pend]
+        have hh' : ({ pc := pc', batch := r } : Node).held = pend pc' + r.length := rfl
+        simp only [List.length_cons] at this hlen
+        rw [hh, hh']
+        exact ⟨by omega, by simp only; omega⟩
+    have hwait : Inv w ((s.setMb i mb').setNode (i + 1) { pc := .send m, batch := r }) :=
+      key (.send m) s.pulled (by simp) (by simp only [pend]; omega)
     cases m with
-    | stop => simp only [Net.pull, Option.some.injEq] at hs; subst hs; exact key .done (by simp)
-    | plain v => simp only [Net.pull, Option.some.injEq] at hs; subst hs; exact key .read (by simp)
-    | fut a b => simp only [Net.pull, Option.some.injEq] at hs; subst hs; exact key .read (by simp)
+    | stop => simp only [Net.pull, Option.some.injEq] at hs; subst hs; exact key .done _ (by simp) (by simp only [pend, Net.setMb]; omega)
+    | plain v =>
+      simp only [Net.pull, unresolved, Bool.false_eq_true, if_false, Option.some.injEq] at hs; subst hs
+      exact key .read _ (by simp) (by simp only [pend, Net.setMb]; omega)
+    | fut a b =>
+      simp only [Net.pull] at hs
+      split at hs
+      · simp only [Option.some.injEq] at hs; subst hs; exact hwait
+      · simp only [Option.some.injEq] at hs; subst hs; exact key .read _ (by simp) (by simp only [pend, Net.setMb]; omega)
 
 theorem Inv.stepRead {w : Wiring} {s s' : Net} (h : Inv w s) {i : Nat} {nd : Node} {inp : MB}
     (hn : s.nodes[i + 1]? = some nd) (hpc : nd.pc = .read) (hb : nd.batch = []) (hm : s.mbs[i]? = some inp)
@@ -960,9 +971,7 @@ theorem Inv.stepBatch {w : Wiring} {s s' : Net} (h : Inv w s) {i : Nat} {nd : No
     apply h.stepPull hi hn hpc hm hc hok rfl rfl _ _ hs
     · intro sub sub' h1 h2; rw [h1] at h2; cases h2; rfl
     · have := hold.2
-      by_cases hc0 : nd.batch.length = 0
-      · omega
-      · omega
+      omega
   · rename_i hnl
     subst hs
     obtain ⟨mb, hm⟩ : ∃ mb, s.mbs[i + 1]? = some mb := ⟨s.mbs[i + 1]'(by omega), List.getElem?_eq_getElem _⟩
@@ -978,6 +987,27 @@ theorem Inv.stepBatch {w : Wiring} {s s' : Net} (h : Inv w s) {i : Nat} {nd : No
     · intro h0; omega
     · intro hcl; simp [hncl] at hcl
     · exact advance_not_dead _
+
+/-- the consumer is handed the result of the future it has been holding -/
+theorem Inv.stepHand {w : Wiring} {s : Net} (h : Inv w s) {j : Nat} {nd : Node} {m : Msg}
+    (hn : s.nodes[j]? = some nd) (hpc : nd.pc = .send m) (hlast : j = s.mbs.length) :
+    Inv w { (s.setNode j { nd with pc := .read }) with pulled := s.pulled + 1 } := by
+  have hlenM := h.lenM
+  have hpos := h.pos
+  obtain ⟨i, rfl⟩ : ∃ i, j = i + 1 := ⟨j - 1, by omega⟩
+  obtain ⟨mb, hm⟩ : ∃ mb, s.mbs[i]? = some mb := ⟨s.mbs[i]'(by omega), List.getElem?_eq_getElem _⟩
+  obtain ⟨c, hc, hok⟩ := h.capAt hm
+  obtain ⟨sub0, hsub0⟩ := hok.sub0
+  have hold := h.main i nd mb sub0 c (by omega) hn hm hsub0 hc
+  rw [← setMb_self hm]
+  apply h.inUpdate hn hm hc hok rfl rfl (by rw [hpc]; simp) (by simp)
+  · intro hlt; omega
+  · intro _ sub sub' h1 h2
+    rw [h1] at h2; cases h2
+    refine ⟨?_, hold.2⟩
+    have e1 : nd.held = 1 + nd.batch.length := by simp [Node.held, hpc, pend]
+    have e2 : ({ nd with pc := .read } : Node).held = nd.batch.length := by simp [Node.held, pend]
+    rw [e1, e2]; simp only [Net.setMb]; omega
 
 theorem Inv.stepNode {w : Wiring} {s s' : Net} (h : Inv w s) {j : Nat} (hs : Backpressure.stepNode s j = some s') : Inv w s' := by
   unfold Backpressure.stepNode at hs
@@ -1037,19 +1067,26 @@ theorem Inv.stepNode {w : Wiring} {s s' : Net} (h : Inv w s) {j : Nat} (hs : Bac
       rename_i m hpc
       split at hs
       · simp at hs
-      · rename_i out hm
-        split at hs
-        · simp at hs
-        · rename_i n mb hg
-          simp only [Option.some.injEq] at hs
-          exact h.stepSend hn (Or.inl hpc) hm hg (Or.inl ⟨n, rfl, Or.inl ⟨hpc, hs.symm⟩⟩)
-        · rename_i mb hg
-          exact h.stepSend hn (Or.inl hpc) hm hg (Or.inr (Or.inr (Or.inl rfl)))
-        · rename_i n mb hg
-          simp only [Option.some.injEq] at hs
-          exact h.stepSend hn (Or.inl hpc) hm hg (Or.inr (Or.inl ⟨n, rfl, hs.symm⟩))
-        · rename_i e mb hg
-          exact h.stepSend hn (Or.inl hpc) hm hg (Or.inr (Or.inr (Or.inr ⟨e, rfl⟩)))
+      · split at hs
+        · -- the consumer is handed the result of the future it was waiting for
+          rename_i hlast
+          simp only [Option.some.injEq] at hs; subst hs
+          exact h.stepHand hn hpc hlast
+        · split at hs
+          · simp at hs
+          · rename_i out hm
+            split at hs
+            · simp at hs
+            · rename_i n mb hg
+              simp only [Option.some.injEq] at hs
+              exact h.stepSend hn (Or.inl ⟨m, hpc⟩) hm hg (Or.inl ⟨n, rfl, Or.inl ⟨⟨m, hpc⟩, hs.symm⟩⟩)
+            · rename_i mb hg
+              exact h.stepSend hn (Or.inl ⟨m, hpc⟩) hm hg (Or.inr (Or.inr (Or.inl rfl)))
+            · rename_i n mb hg
+              simp only [Option.some.injEq] at hs
+              exact h.stepSend hn (Or.inl ⟨m, hpc⟩) hm hg (Or.inr (Or.inl ⟨n, rfl, hs.symm⟩))
+            · rename_i e mb hg
+              exact h.stepSend hn (Or.inl ⟨m, hpc⟩) hm hg (Or.inr (Or.inr (Or.inr ⟨e, rfl⟩)))
     · -- close
       rename_i hpc
       split at hs
@@ -1059,14 +1096,14 @@ theorem Inv.stepNode {w : Wiring} {s s' : Net} (h : Inv w s) {j : Nat} (hs : Bac
         · simp at hs
         · rename_i n mb hg
           simp only [Option.some.injEq] at hs
-          exact h.stepSend (m := .stop) hn (Or.inr ⟨hpc, rfl⟩) hm hg (Or.inl ⟨n, rfl, Or.inr ⟨hpc, hs.symm⟩⟩)
+          exact h.stepSend (m := .stop) hn (Or.inr hpc) hm hg (Or.inl ⟨n, rfl, Or.inr ⟨hpc, hs.symm⟩⟩)
         · rename_i mb hg
-          exact h.stepSend (m := .stop) hn (Or.inr ⟨hpc, rfl⟩) hm hg (Or.inr (Or.inr (Or.inl rfl)))
+          exact h.stepSend (m := .stop) hn (Or.inr hpc) hm hg (Or.inr (Or.inr (Or.inl rfl)))
         · rename_i n mb hg
           simp only [Option.some.injEq] at hs
-          exact h.stepSend (m := .stop) hn (Or.inr ⟨hpc, rfl⟩) hm hg (Or.inr (Or.inl ⟨n, rfl, hs.symm⟩))
+          exact h.stepSend (m := .stop) hn (Or.inr hpc) hm hg (Or.inr (Or.inl ⟨n, rfl, hs.symm⟩))
         · rename_i e mb hg
-          exact h.stepSend (m := .stop) hn (Or.inr ⟨hpc, rfl⟩) hm hg (Or.inr (Or.inr (Or.inr ⟨e, rfl⟩)))
+          exact h.stepSend (m := .stop) hn (Or.inr hpc) hm hg (Or.inr (Or.inr (Or.inr ⟨e, rfl⟩)))
     · simp at hs
     · simp at hs
 
@@ -1112,6 +1149,12 @@ theorem Inv.step {w : Wiring} {s s' : Net} (h : Inv w s) {t : Tid} (hs : Backpre
   cases t with
   | node j => exact h.stepNode hs
   | side i => exact h.stepSide hs
+  | resolve id =>
+    simp only [Backpressure.step, stepResolve] at hs
+    split at hs
+    · simp only [Option.some.injEq] at hs; subst hs
+      exact ⟨h.lz, h.lenM, h.lenN, h.pos, h.mbOk, h.sidesOk, h.closed, h.notDead, h.src, h.stage, h.main⟩
+    · simp at hs
 
 /-! ### the initial state -/
 
@@ -1192,7 +1235,7 @@ theorem Inv.init (w : Wiring) (n : Nat) (hpos : 0 < w.caps.length) : Inv w (wire
     obtain ⟨h1, h2, _⟩ := wire_nodes hn
     simp only [mkMb, List.getElem?_cons_zero, Option.some.injEq] at hs
     subst hs
-    simp [h1, wire]
+    simp [h1, h2, Node.held, wire]
 
 theorem Inv.reachable {w : Wiring} {n : Nat} {s : Net} (hpos : 0 < w.caps.length) (h : Reachable w n s) : Inv w s := by
   induction h with
@@ -1216,9 +1259,17 @@ theorem drop_sum_succ (l : List Nat) (i : Nat) (c : Nat) (h : l[i]? = some c) :
   have := List.drop_eq_getElem_cons hlt
   rw [this, List.sum_cons]
 
+theorem pend_le_one (pc : Pc) : pend pc ≤ 1 := by cases pc <;> simp [pend]
+
+/-- 1 if the consumer's reader holds a future it is waiting for (taken out of the mailbox, not handed over yet) -/
+def Net.mainPend (s : Net) : Nat :=
+  match s.nodes[s.mbs.length]? with
+  | some nd => pend nd.pc
+  | none => 0
+
 /-- how far the sender of mailbox `i` can be ahead of the consumer -/
 theorem Inv.ahead {w : Wiring} {s : Net} (h : Inv w s) (hcap : ∀ c ∈ w.caps, 1 ≤ c) :
-    ∀ i, i < w.caps.length → ∀ mb, s.mbs[i]? = some mb → mb.nSent + 1 ≤ s.pulled + 2 * (w.caps.drop i).sum := by
+    ∀ i, i < w.caps.length → ∀ mb, s.mbs[i]? = some mb → mb.nSent + 1 ≤ s.pulled + 2 * (w.caps.drop i).sum + s.mainPend := by
   have hlenM := h.lenM
   have hlenN := h.lenN
   apply down_induction
@@ -1233,6 +1284,11 @@ theorem Inv.ahead {w : Wiring} {s : Net} (h : Inv w s) (hcap : ∀ c ∈ w.caps,
     rw [drop_sum_succ _ _ c hc]
     have : (w.caps.drop (w.caps.length - 1 + 1)).sum = 0 := by
       rw [List.drop_eq_nil_of_le (by omega)]; rfl
+    have hmp : s.mainPend = pend nd.pc := by
+      have : w.caps.length - 1 + 1 = s.mbs.length := by omega
+      rw [this] at hn
+      simp [Net.mainPend, hn]
+    simp only [Node.held] at h1
     omega
   · intro i hi ih mb hm
     obtain ⟨c, hc, hok⟩ := h.capAt hm
@@ -1268,10 +1324,14 @@ theorem Inv.behind {w : Wiring} {s : Net} (h : Inv w s) :
     have h3 := ih out ho
     omega
 
-theorem pend_le_one (pc : Pc) : pend pc ≤ 1 := by cases pc <;> simp [pend]
+theorem mainPend_le_one (s : Net) : s.mainPend ≤ 1 := by
+  unfold Net.mainPend; split
+  · exact pend_le_one _
+  · omega
 
-/-- REST BOUND (all modes): the source is never more than `B w` messages ahead of the consumer -/
-theorem Inv.bound {w : Wiring} {s : Net} (h : Inv w s) (hcap : ∀ c ∈ w.caps, 1 ≤ c) : s.emitted ≤ s.pulled + B w := by
+/-- REST BOUND (all modes): the source is never more than `B w` messages ahead of the consumer — plus the one future the
+consumer's reader may be holding -/
+theorem Inv.bound {w : Wiring} {s : Net} (h : Inv w s) (hcap : ∀ c ∈ w.caps, 1 ≤ c) : s.emitted ≤ s.pulled + B w + s.mainPend := by
   have hlenM := h.lenM
   have hlenN := h.lenN
   have hpos := h.pos
@@ -1304,7 +1364,10 @@ theorem Inv.pulled_le {w : Wiring} {s : Net} (h : Inv w s) : s.pulled ≤ s.emit
 
 theorem pull_len {s s' : Net} {j : Nat} {b : List Msg} (h : s.pull j b = some s') : s'.mbs.length = s.mbs.length := by
   unfold Net.pull at h
-  split at h <;> simp at h <;> subst h <;> simp
+  repeat' split at h
+  all_goals first
+    | (simp at h; done)
+    | (simp only [Option.some.injEq] at h; subst h; simp; done)
 
 theorem stepNode_len {s s' : Net} {j : Nat} (h : stepNode s j = some s') : s'.mbs.length = s.mbs.length := by
   unfold stepNode at h
@@ -1335,11 +1398,21 @@ theorem step_len {s s' : Net} {t : Tid} (h : step s t = some s') : s'.mbs.length
   cases t with
   | node j => exact stepNode_len h
   | side i => exact (stepSide_pulled h).2
+  | resolve id =>
+    simp only [step, stepResolve] at h
+    split at h
+    · simp only [Option.some.injEq] at h; subst h; rfl
+    · simp at h
 
 theorem step_pulled {s s' : Net} {t : Tid} (h : step s t = some s') (ht : t ≠ s.main) : s'.pulled = s.pulled := by
   cases t with
   | node j => exact stepNode_pulled h (by intro hj; apply ht; simp [Net.main, hj])
   | side i => exact (stepSide_pulled h).1
+  | resolve id =>
+    simp only [step, stepResolve] at h
+    split at h
+    · simp only [Option.some.injEq] at h; subst h; rfl
+    · simp at h
 
 /-! ### well-formed wirings, schedules -/
 
